@@ -370,13 +370,75 @@ fn run(data: &[u8], dump: bool) -> Vec<String> {
                 }
             }
             _ => {
-                // BuildHasher
                 let Some(kb) = inp.u8() else { break };
-                let key = KEYS[(kb as usize) % KEYS.len()];
-                ops.push(format!("bh {} {}", hi, kstr(&key)));
-                if !dump {
-                    let b = HighwayBuildHasher::new(Key(key));
-                    slots[hi] = Some(Slot { h: H::D(b.build_hasher()), base: Base::Key(key), fed: Vec::new() });
+                match kb >> 6 {
+                    0 => {
+                        // BuildHasher
+                        let key = KEYS[(kb as usize) % KEYS.len()];
+                        ops.push(format!("bh {} {}", hi, kstr(&key)));
+                        if !dump {
+                            let b = HighwayBuildHasher::new(Key(key));
+                            slots[hi] = Some(Slot { h: H::D(b.build_hasher()), base: Base::Key(key), fed: Vec::new() });
+                        }
+                    }
+                    1 => {
+                        // provided one-shot helper on a fed hasher: hashN(self, data)
+                        let Some(n) = inp.len() else { break };
+                        let d = inp.take(n).to_vec();
+                        let w = [64, 128, 256][(kb as usize) % 3];
+                        ops.push(format!("hashfin {} {} {}", hi, w, hex(&d)));
+                        if dump {
+                            continue;
+                        }
+                        if let Some(mut s) = slots[hi].take() {
+                            s.fed.extend_from_slice(&d);
+                            let r = s.reference();
+                            let ok = match w {
+                                64 => each!(s.h, x => x.hash64(&d)) == r.finalize64(),
+                                128 => each!(s.h, x => x.hash128(&d)) == r.finalize128(),
+                                _ => each!(s.h, x => x.hash256(&d)) == r.finalize256(),
+                            };
+                            if !ok {
+                                fail(&ops, "C05 hashN(data) on a fed hasher differs from the portable one-shot hash of everything fed");
+                            }
+                        }
+                    }
+                    _ => {
+                        // value.hash(&mut hasher): the provided Hasher::write_* methods
+                        let raw = inp.take(16);
+                        let mut b16 = [0u8; 16];
+                        b16[..raw.len()].copy_from_slice(raw);
+                        let v = u128::from_le_bytes(b16);
+                        let kind = (kb & 7) as usize;
+                        let (tok, bytes): (String, Vec<u8>) = match kind {
+                            0 => (format!("u8:{:x}", v as u8), (v as u8).to_ne_bytes().to_vec()),
+                            1 => (format!("u16:{:x}", v as u16), (v as u16).to_ne_bytes().to_vec()),
+                            2 => (format!("u32:{:x}", v as u32), (v as u32).to_ne_bytes().to_vec()),
+                            3 => (format!("u64:{:x}", v as u64), (v as u64).to_ne_bytes().to_vec()),
+                            4 => (format!("u128:{:x}", v), v.to_ne_bytes().to_vec()),
+                            5 => (format!("usize:{:x}", v as usize), (v as usize).to_ne_bytes().to_vec()),
+                            6 => (format!("i64:{:x}", v as u64), (v as u64).to_ne_bytes().to_vec()),
+                            _ => (format!("bool:{}", (v & 1) as u8), vec![(v & 1) as u8]),
+                        };
+                        ops.push(format!("hwval {} {}", hi, tok));
+                        if dump {
+                            continue;
+                        }
+                        if let Some(s) = &mut slots[hi] {
+                            use std::hash::Hash;
+                            match kind {
+                                0 => each!(&mut s.h, x => (v as u8).hash(x)),
+                                1 => each!(&mut s.h, x => (v as u16).hash(x)),
+                                2 => each!(&mut s.h, x => (v as u32).hash(x)),
+                                3 => each!(&mut s.h, x => (v as u64).hash(x)),
+                                4 => each!(&mut s.h, x => v.hash(x)),
+                                5 => each!(&mut s.h, x => (v as usize).hash(x)),
+                                6 => each!(&mut s.h, x => (v as u64 as i64).hash(x)),
+                                _ => each!(&mut s.h, x => ((v & 1) == 1).hash(x)),
+                            }
+                            s.fed.extend_from_slice(&bytes);
+                        }
+                    }
                 }
             }
         }
